@@ -11,11 +11,12 @@ What is modelled (and checked against the installed scipy by harness/sparse_conf
   * the stored entries of csr/csc (`data`, `indices`, `indptr`) and coo (`data`, `row`, `col`, duplicates allowed).
 Modelling assumptions: the stored pattern of a matrix built from a dense array is "every cell that is not the constant
 zero" (a symbolic cell that may be zero is kept as an explicit zero - legal in scipy and invisible to every operation
-modelled here except nnz); np.matrix results (sum(axis), ndarray - sparse, todense) are modelled as 2-D arrays."""
+modelled here except nnz); np.matrix results (sum(axis), ndarray - sparse, todense) are SymMatrix objects (symnp/arr.py: always 2-D, M[i] is (1, n), `*` is the
+matrix product, class propagates through arithmetic)."""
 import numpy as _np
 
 from . import core, funcs
-from .arr import SArr, _raw, _unlazy, coerce
+from .arr import SArr, _raw, _unlazy, coerce, as_matrix
 from .core import SVal, Unsupported
 
 FORMATS = ('csr', 'csc', 'coo', 'lil', 'dok', 'dia', 'bsr')
@@ -294,7 +295,8 @@ class SymSp:
             seen.add((r, k))
         return _mk2(grid, self.ldt) if n and m else funcs.np_zeros((n, m), dtype=self.ldt)
 
-    todense = toarray
+    def todense(self, order=None, out=None):
+        return as_matrix(self.toarray())
 
     @property
     def A(self):
@@ -362,7 +364,7 @@ class SymSp:
         r = funcs.np_sum(d, axis=axis)
         if self._array_api:
             return r
-        return r.reshape((1, -1)) if axis in (0, -2) else r.reshape((-1, 1))
+        return as_matrix(r.reshape((1, -1)) if axis in (0, -2) else r.reshape((-1, 1)))
 
     def mean(self, axis=None):
         raise Unsupported('mean of a sparse matrix')
@@ -405,7 +407,7 @@ class SymSp:
                 d = self.toarray() + other
                 return self._dense_full('dok', d)
             raise NotImplementedError('adding a nonzero scalar to a sparse array is not supported')
-        return _dense_of(self) + _dense_of(other)               # dense result (np.matrix in scipy)
+        return as_matrix(_dense_of(self) + _dense_of(other))               # np.matrix, as in scipy
 
     __radd__ = __add__
 
@@ -427,7 +429,7 @@ class SymSp:
             if _is_const_zero(other):
                 return self.copy()
             raise NotImplementedError('subtracting a nonzero scalar from a sparse array is not supported')
-        return _dense_of(self) - _dense_of(other)
+        return as_matrix(_dense_of(self) - _dense_of(other))
 
     def __rsub__(self, other):
         other = _unlazy(other)
@@ -435,7 +437,7 @@ class SymSp:
             if _is_const_zero(other):
                 return -self
             raise NotImplementedError('subtracting a sparse array from a nonzero scalar is not supported')
-        return _dense_of(other) - _dense_of(self)
+        return as_matrix(_dense_of(other) - _dense_of(self))
 
     def __neg__(self):
         o = type(self).__new__(type(self))
